@@ -137,3 +137,20 @@ fn ieee_classification() {
     }
     assert!(x.is_zero() || x.is_infinite() || x.is_nan() || x.is_normal() || x.is_subnormal());
 }
+
+/// C10 (unit `tokchars`): the axiom about `unicode_ident` that the character-class contracts use - none of the documented operator
+/// characters is XID_Start, and none but U+00B7 MIDDLE DOT is XID_Continue. Concrete calls into the crate's real tables.
+#[kani::proof]
+#[kani::unwind(40)]
+fn unicode_operator_chars_not_xid() {
+    let ops = ['\u{2264}', '\u{2265}', '\u{2260}', '\u{2A75}', '\u{2192}', '\u{279E}', '\u{2212}', '\u{00D7}', '\u{00F7}', '\u{00B7}', '\u{22C5}',
+               '+', '-', '*', '/', '^', '<', '>', '=', '!', '|', '&', '(', ')', '[', ']', '{', '}', ',', ':', ';', '?', ' '];
+    let mut i = 0;
+    while i < ops.len() {
+        let c = ops[i];
+        assert!(!unicode_ident::is_xid_start(c));
+        assert!(c == '\u{00B7}' || !unicode_ident::is_xid_continue(c));
+        i += 1;
+    }
+    assert!(unicode_ident::is_xid_continue('\u{00B7}'));
+}
